@@ -381,7 +381,7 @@ func zztraceOf(m *Modifier, isReq bool) []string {
 }
 
 // VerifC12Reject: a configuration corrupted at one place (unknown modifier,
-// unsupported scope, malformed JSON, two keys in one object) at any depth is
+// unsupported scope, malformed JSON, trailing data behind a complete value, two keys in one object) at any depth is
 // rejected as a whole; a rejected reconfiguration leaves the previous one in
 // force and an accepted one replaces it completely.
 func VerifC12Reject() {
@@ -392,6 +392,10 @@ func VerifC12Reject() {
 		`{"header.Append": {"name": "X-Trace", "value": "B"}`,
 		`{"header.Append": {"name": "X-Trace", "value": "B"}, "fifo.Group": {"modifiers": []}}`,
 		`{"header.Append": {"name": "X-Trace", "value": 7}}`,
+		// a complete, valid configuration followed by more (the whole text is not one JSON value)
+		leaf("B") + ` }`,
+		leaf("B") + ` ` + leaf("B2"),
+		leaf("B") + `x`,
 	}
 	bad := bads[vf.Choice("corruption", len(bads))]
 	// every kind of filter that has a then- and an else-branch
